@@ -169,6 +169,17 @@ def step (line : String) : String :=
           | none => false
         answer (showList rs) holds
       | _, _, _, _ => "bad-op"
+    | ["rrvar", chunk, ns] =>
+      -- the partition list changes from call to call: call j is offered [0..n_j)
+      match chunk.toInt?, parseNats ns with
+      | some chunk, some ns =>
+        let rs := (RoundRobin.fresh chunk).runVar (ns.map iota)
+        -- the property: every answer is one of the partitions offered to THAT call (and nothing panics)
+        let holds := match parseInts impl with
+          | some xs => xs.length == ns.length && (xs.zip ns).all (fun (x, n) => 0 ≤ x && x < (n : Int))
+          | none => false
+        answer (showList rs) holds
+      | _, _ => "bad-op"
     | ["lb", ps, szs] =>
       match parseInts ps, parseNats szs with
       | some parts, some sizes =>
